@@ -734,6 +734,37 @@ func c17ConsistencyKeys(c *rt.C, name, keyName, id string) {
 			}
 		}
 	}
+	// the topics generated for the entity name it in their annotation: whatever the case rules of the compiler make of the
+	// declared name, it has to be the same entity everywhere (the KEYS part <X>Keys is the reference). How the topic
+	// services themselves are spelled is not judged here (entity aB: ABKeys beside AbpublishTopic on the unchanged tree)
+	keysFull := ""
+	for full, m := range ix.msgs {
+		if psm := psmOf(m); psm != nil && psm.EntityPart != nil && *psm.EntityPart == schema_j5pb.EntityPart_KEYS {
+			keysFull = full
+		}
+	}
+	if strings.HasSuffix(keysFull, "Keys") {
+		wantFull := strings.TrimSuffix(keysFull, "Keys")
+		for full, s := range ix.svcs {
+			if s.Options == nil || !proto.HasExtension(s.Options, messaging_j5pb.E_Service) {
+				continue
+			}
+			cfg := proto.GetExtension(s.Options, messaging_j5pb.E_Service).(*messaging_j5pb.ServiceConfig)
+			got := ""
+			switch {
+			case cfg.GetEvent() != nil:
+				got = cfg.GetEvent().EntityName
+			case cfg.GetUpsert() != nil:
+				got = cfg.GetUpsert().EntityName
+			default:
+				continue
+			}
+			c.Event("unusual_name_topics_checked")
+			if got != wantFull {
+				c.Violate("entity/unusual-name/topic-entity", fmt.Sprintf("%s: topic %s of entity %q names entity %q, the entity's key message is %s", id, full, name, got, keysFull), det())
+			}
+		}
+	}
 	if len(names) != 1 {
 		c.Violate("entity/unusual-name/annotation-differs", fmt.Sprintf("%s: the parts of entity %q carry different entity names: %v", id, name, names), det())
 	}
@@ -800,7 +831,7 @@ func c17ConsistencyKeys(c *rt.C, name, keyName, id string) {
 }
 
 func runC17(r *rt.Runner) {
-	for _, name := range []string{"HTTPThing", "fooID", "FooID", "Foo2", "foo2bar", "foo2Bar", "FOO", "X", "aB", "fooBAR", "Foo_Bar", "foo_Bar", "FOO_BAR", "fooBarBaz", "foo_bar_baz", "v1Thing", "Foo9Bar9"} {
+	for _, name := range []string{"HTTPThing", "APIKey", "UserID", "OAuth2Client", "fooID", "FooID", "Foo2", "foo2bar", "foo2Bar", "FOO", "X", "aB", "fooBAR", "Foo_Bar", "foo_Bar", "FOO_BAR", "fooBarBaz", "foo_bar_baz", "v1Thing", "Foo9Bar9"} {
 		name := name
 		r.Do("unusual/"+name, func(c *rt.C) { c17Consistency(c, name, "unusual:"+name) })
 	}
